@@ -33,10 +33,12 @@ EXTENDS Integers, Sequences, FiniteSets, TLC, Json, CSV, IOUtils
 CONSTANTS Cons,      \* constructors offered: set of [k, op, n]
           Terms,     \* terminator spellings offered: subset of {"semi", "nl", "omit"}
           MaxE, MaxS, MaxX,   \* budgets: expression operators / statements / auxiliary nodes
-          MaxStack
+          MaxL,               \* budget: leaves other than identifiers (literals, new.target, import.meta, [] and {})
+          MaxP,               \* budget: composite primary expressions (function, class, object, array, arrow with block body)
+          MaxTop              \* top-level statements
 
-VARIABLES stack, ne, ns, nx, nleaf
-vars == <<stack, ne, ns, nx, nleaf>>
+VARIABLES word, holes, ne, ns, nx, np, nv, nleaf
+vars == <<word, holes, ne, ns, nx, np, nv, nleaf>>
 
 Pool == <<"a","b","c","d","e","f","g","h","i","j","k","m","n","o","p","q","r","s","t","u","v","w","x","y","z",
           "a1","b1","c1","d1","e1","f1","g1","h1","i1","j1","k1","m1","n1","o1","p1","q1","r1","s1","t1","u1">>
@@ -69,14 +71,13 @@ ExprLeaves == {C0("id"), C0("yield0"), C0("psid"), CN("ps", 0)}
 OneStmt == {C0("expr")}
 ExprFull == ExprOps \cup ExprLeaves \cup OneStmt
 \* one or two representatives per ladder level
-ExprReduced == {C0("id"), C0("psid"), C0("expr"), C0("grp"), C0("new0"), C0("comma"), C0("cond"), C0("idx"), C0("odot"), C0("dot"),
-                C0("yield"), CN("call", 1), CN("newa", 0), CN("tag", 0), CO("arrow", ""),
-                CO("bin","??"), CO("bin","||"), CO("bin","&&"), CO("bin","|"), CO("bin","=="), CO("bin","in"), CO("bin","<"),
-                CO("bin","<<"), CO("bin","+"), CO("bin","-"), CO("bin","*"), CO("bin","/"), CO("bin","**"),
-                CO("asg","="), CO("asg","+="), CO("un","-"), CO("un","typeof"), CO("un","await"), CO("pre","++"), CO("post","--")}
+ExprReduced == {C0("id"), C0("psid"), C0("expr"), C0("grp"), C0("new0"), C0("comma"), C0("cond"), C0("dot"), C0("odot"),
+                C0("yield"), CN("call", 1), CN("newa", 0), CO("arrow", ""),
+                CO("bin","??"), CO("bin","||"), CO("bin","=="), CO("bin","in"), CO("bin","+"), CO("bin","*"), CO("bin","**"),
+                CO("asg","="), CO("un","-"), CO("un","await"), CO("post","++")}
 \* every kind of leaf / primary expression under one operator
 LeafCons == {C0("id"), C0("expr"), C0("nt"), C0("im"), C0("yield0"), CN("arr", 0), CO("arr", "h0"), CN("obj", 0), CN("ps", 0), CN("blk", 0),
-             CN("cls", 0), CN("clsn", 0), C0("psh"), CN("obj", 1), CN("arr", 2), CON("arr", "h1", 1), CON("arr", "1h", 1),
+             CN("cls", 0), CN("clsn", 0), CON("cls", "x", 0), CON("clsn", "", 1), CON("clsn", "x", 1), CN("field", 0), C0("psh"), CN("obj", 1), CN("arr", 2), CON("arr", "h1", 1), CON("arr", "1h", 1),
              CO("arrowb", ""), CO("arrowb", "async"), CO("arrow", ""), C0("spread"), C0("pspread"), C0("pcomp"),
              CO("bin","+"), CO("bin","/"), CO("bin","**"), CO("bin","in"), CO("asg","="), CO("un","-"), CO("un","typeof"), CO("post","++"),
              C0("dot"), CN("call", 1), CN("call", 2), CN("newa", 2), CN("tag", 0), C0("new0"), C0("cond"), C0("grp"), CN("tpl", 2), C0("idx")}
@@ -92,30 +93,54 @@ TryOps == {"c","cp","f","cf","cpf"}
 StmtCons == {C0("id"), C0("expr"), C0("empty"), CN("blk", 0), CN("blk", 1), CN("blk", 2), C0("if"), C0("ife"), C0("while"), C0("dow"),
              CN("sw", 0), CN("sw", 1), CN("sw", 2), CN("case", 0), CN("case", 1), CN("case", 2), CN("def", 0), CN("def", 1),
              CO("label", "L"), CO("label", "M"), CO("brk", ""), CO("brk", "L"), CO("cont", ""), CO("cont", "L"),
-             C0("ret0"), C0("ret"), C0("throw"), C0("dbg"), C0("bid"), C0("dc"), C0("dci"), CN("ps", 0), CN("ps", 1),
-             CO("bin", "+"), CO("pre", "++"), CO("asg", "="), CN("call", 0), C0("grp"), C0("yield0"), CO("un", "await")}
+             C0("ret0"), C0("ret"), C0("throw"), C0("dbg"), C0("bid"), C0("dc"), C0("dci"), CN("ps", 0), CN("ps", 1)}
             \cup {CO("for", f) : f \in ForOps} \cup {CO("try", f) : f \in TryOps}
             \cup {CON("var", v, 1) : v \in {"var","let","const"}} \cup {CON("var", "var", 2)}
             \cup {CO(l, v) : l \in {"forin","forof","forawait"}, v \in {"e","var","let","const"}}
             \cup {CO("fdecl", f) : f \in FnKinds} \cup {CON("cdecl", "", 0)}
+\* one representative per statement family, for deeper nesting
+StmtRed == {C0("id"), C0("expr"), C0("empty"), CN("blk", 0), CN("blk", 2), C0("if"), C0("ife"), C0("while"), C0("dow"),
+            CN("sw", 1), CN("sw", 2), CN("case", 1), CN("def", 1), CO("label", "L"), CO("brk", ""), CO("brk", "L"), CO("cont", ""), CO("cont", "L"),
+            C0("ret"), C0("throw"), C0("bid"), C0("dc"), CN("ps", 0), CO("for", "eee"), CO("for", "v--"), CO("try", "cf"), CON("var", "let", 1), CON("var", "var", 1),
+            CO("forin", "var"), CO("forof", "e"), CO("fdecl", ""), CO("fdecl", "async*"), CO("forawait", "const")}
+\* terminator spellings: statements that end in ";" and what may follow them
+AsiCons == {C0("id"), C0("expr"), CN("blk", 1), CN("blk", 2), C0("if"), C0("ife"), C0("dow"), C0("while"),
+            CN("sw", 1), CN("case", 2), CO("label", "L"), CO("brk", ""), CO("brk", "L"), CO("cont", ""),
+            C0("ret0"), C0("ret"), C0("throw"), C0("dbg"), C0("bid"), C0("dc"), C0("dci"), CN("ps", 0), CO("for", "---"),
+            CON("var", "var", 1), CON("var", "let", 1), CO("fdecl", ""), CO("fdecl", "*"),
+            CO("pre", "++"), CO("post", "--"), CN("call", 0), C0("grp"), C0("yield0"), CO("un", "!"), CO("un", "-"), CO("lit", "'s'"), CO("lit", "/r/"), CO("lit", "`t`"),
+            CN("arr", 0), CO("bin", "+"), CO("fn", ""), CN("obj", 0), CO("arrow", ""), C0("psid")}
 \* bindings and parameter lists
 BindCons == {C0("id"), C0("expr"), C0("bid"), C0("bdef"), CN("barr", 0), CN("barr", 1), CN("barr", 2), CON("barr", "h1", 1), CON("barr", "r", 1),
              CON("barr", "r", 2), CN("bobj", 0), CN("bobj", 1), CN("bobj", 2), CON("bobj", "r", 0), CON("bobj", "r", 1),
              C0("bpsh"), C0("bpshd"), CO("bpkv", "pr"), CO("bpkv", "if"), C0("bpcomp"), C0("dc"), C0("dci"),
-             CON("var", "var", 1), CON("var", "let", 1), CON("var", "const", 1), CON("var", "let", 2),
+             CON("var", "let", 1), CON("var", "const", 1), CON("var", "var", 2),
              CN("ps", 0), CN("ps", 1), CN("ps", 2), CON("ps", "r", 1), CON("ps", "r", 2), C0("psid"), CN("blk", 0),
-             CO("fdecl", ""), CO("fn", ""), CO("arrowb", ""), CO("arrow", ""), CO("arrow", "async"), CO("try", "cp"),
-             CO("forof", "let"), CO("forin", "var"), CO("forof", "e"), CO("asg", "="), CN("arr", 1), CN("arr", 2), CN("obj", 1), C0("psh"),
-             CO("pkv", "pr"), C0("spread"), C0("pspread"), C0("empty"), CO("bin", "+")}
+             CO("fdecl", ""), CO("arrow", ""), CO("arrow", "async"), CO("try", "cp"),
+             CO("forof", "let"), CO("forin", "var"), CO("bin", "+"), C0("empty")}
+\* destructuring assignment (the cover grammar: array / object literals re-read as patterns)
+AsgPat == {C0("id"), C0("expr"), CO("asg", "="), CO("asg", "+="), CN("arr", 1), CN("arr", 2), CON("arr", "h1", 1), CN("obj", 1), CN("obj", 2), C0("psh"), CO("pkv", "pr"), C0("pcomp"),
+           C0("spread"), C0("pspread"), C0("grp"), C0("dot"), C0("idx"), CO("forof", "e"), CO("forin", "e"), C0("empty")}
+\* statements inside class bodies; private names
+ClassBody == {C0("id"), C0("expr"), CN("ps", 0), CN("blk", 0), CN("blk", 1), C0("ctor"), C0("sblock"), CN("pfield", 0), CO("pmeth2", ""), CO("meth", ""), CO("smeth", "async"),
+              CON("cdecl", "", 2), CON("clsn", "", 2), C0("pdot"), C0("opdot"), C0("dot"), CO("asg", "="), C0("ret"), C0("nt"), CO("un", "await"), C0("ret0")}
+\* deeper patterns in one context
+BindDeep == {C0("id"), C0("bid"), C0("bdef"), CN("barr", 0), CN("barr", 1), CN("barr", 2), CON("barr", "h1", 1), CON("barr", "r", 1), CON("barr", "r", 2),
+             CN("bobj", 0), CN("bobj", 1), CN("bobj", 2), CON("bobj", "r", 0), CON("bobj", "r", 1),
+             C0("bpsh"), C0("bpshd"), CO("bpkv", "pr"), C0("bpcomp"), C0("dci"), CON("var", "let", 1)}
+\* terminators of class fields
+ClassAsi == {C0("id"), CN("ps", 0), CN("blk", 0), CN("field", 0), CN("field", 1), CN("pfield", 0), CN("sfield", 1), CN("cfield", 0), CN("cfield", 1),
+             CO("meth", ""), CO("meth", "*"), CO("meth", "get"), CO("smeth", ""), CO("cmeth", ""), C0("sblock"), CON("cdecl", "", 1), CON("cdecl", "", 2)}
 \* classes
-ClassCons == {C0("id"), C0("expr"), CN("ps", 0), CN("ps", 1), C0("bid"), CN("blk", 0), CN("blk", 1), C0("ctor"), C0("sblock"),
+ClassCons == {C0("id"), C0("expr"), CN("ps", 0), CN("ps", 1), C0("bid"), CN("blk", 0), C0("ctor"), C0("sblock"),
               CN("field", 0), CN("field", 1), CN("sfield", 0), CN("sfield", 1), CN("pfield", 0), CN("pfield", 1), CN("cfield", 0), CN("cfield", 1),
               CON("cdecl", "", 0), CON("cdecl", "", 1), CON("cdecl", "", 2), CON("cdecl", "x", 0), CON("cdecl", "x", 1),
-              CON("cls", "", 1), CON("cls", "x", 0), CON("clsn", "", 1), CON("clsn", "x", 1), C0("pdot"), C0("opdot"), C0("dot"), CO("bin", "+"), CN("call", 0),
-              CO("asg", "="), C0("ret")}
-             \cup {CO(m, k) : m \in {"meth","smeth","pmeth2","cmeth"}, k \in MethKinds}
+              C0("pdot"), C0("opdot"), C0("dot"), CO("bin", "+"), CN("call", 0),
+              CO("asg", "=")}
+             \cup {CO("meth", k) : k \in MethKinds} \cup {CO("smeth", k) : k \in {"", "set"}} \cup {CO("pmeth2", k) : k \in {"", "get"}}
+             \cup {CO("cmeth", k) : k \in {"", "async*"}}
 
-AllCons == ExprFull \cup ExprReduced \cup LeafCons \cup NegCons \cup StmtCons \cup BindCons \cup ClassCons
+AllCons == ExprFull \cup ExprReduced \cup LeafCons \cup NegCons \cup StmtCons \cup StmtRed \cup AsiCons \cup BindCons \cup BindDeep \cup AsgPat \cup ClassBody \cup ClassAsi \cup ClassCons
 \* configurations for -simulate: everything at once
 SimCons == AllCons \ {c \in AllCons : c.k \in {"badasg", "dup"}}
 
@@ -191,7 +216,9 @@ FreshCon(con) == Fresh(con.k) \/ (con.k = "bobj" /\ con.op = "r")
 HasTerm(k) == k \in {"expr","var","dow","brk","cont","ret0","ret","throw","dbg","field","sfield","pfield","cfield"}
 \* cost class
 Cost(con) == IF con.k = "yield0" THEN "e"
-             ELSE IF SigArgs(con) = <<>> /\ con.k \notin {"empty","brk","cont","ret0","dbg","dup"} THEN "l"
+             ELSE IF con.k \in {"lit","nt","im"} \/ (con.k \in {"arr","obj"} /\ con.n = 0) THEN "v"
+             ELSE IF con.k \in {"fn","fnn","cls","clsn","obj","arr","arrowb"} THEN "p"
+             ELSE IF SigArgs(con) = <<>> /\ con.k \notin {"brk","cont","ret0","dbg","dup"} THEN "l"
              ELSE IF con.k \in SKinds THEN "s" ELSE IF con.k \in EKinds THEN "e" ELSE "x"
 
 (* ------------------------------- the ladder ------------------------------- *)
@@ -623,6 +650,9 @@ Ok(t) ==
              /\ (t.op = "e" => IsSimpleTarget(t.c[1]) \/ IsAsgPattern(t.c[1]))
              /\ (t.op # "e" => t.c[1].k # "bdef")
       [] k = "sw" -> Cardinality({i \in DOMAIN t.c : t.c[i].k = "def"}) <= 1
+      \* an EmptyStatement directly after another statement of a list is not generated (js.Parse does not keep it in the tree)
+      [] k \in {"blk","def"} -> \A i \in DOMAIN t.c : i > 1 => t.c[i].k # "empty"
+      [] k = "case" -> \A i \in DOMAIN t.c : i > 2 => t.c[i].k # "empty"
       [] k = "try" -> (t.op \in {"cp","cpf"} => t.c[2].k # "bdef")
       [] OTHER -> TRUE
 
@@ -659,51 +689,98 @@ Starts(lens, i, acc) == IF i > Len(lens) THEN <<>> ELSE <<acc>> \o Starts(lens, 
 Ins(lens, off) == LET st == Starts(lens, 1, off) IN
                   UNION {{[at |-> st[i], tok |-> b] : b \in {"(", "[", "{"}} \cup {[at |-> st[i] + lens[i], tok |-> b] : b \in {")", "]", "}"}} : i \in DOMAIN lens}
 
-(* ------------------------------- behaviours ------------------------------- *)
-Init == stack = <<>> /\ ne = 0 /\ ns = 0 /\ nx = 0 /\ nleaf = 0
-
 \* tables computed once (constant level)
 SigTab == [c \in Cons |-> SigArgs(c)]
 CostTab == [c \in Cons |-> Cost(c)]
-Apply(con) ==
-    LET sa == SigTab[con]
-        n == Len(sa)
-        cost == CostTab[con]
-    IN /\ Len(stack) >= n
-       /\ ns < MaxS
-       /\ Len(stack) - n + 1 <= MaxStack
-       /\ CASE cost = "e" -> ne < MaxE [] cost = "s" -> TRUE [] cost = "x" -> nx < MaxX [] cost = "l" -> TRUE
-       /\ (FreshCon(con) => nleaf < Len(Pool))
-       /\ LET args == SubSeq(stack, Len(stack) - n + 1, Len(stack))
-              rest == SubSeq(stack, 1, Len(stack) - n)
-          IN /\ \A i \in 1..n : Match(sa[i], args[i])
-             /\ \E z \in (IF HasTerm(con.k) THEN Terms ELSE {""}) :
-                   LET node == N(con.k, con.op, (IF FreshCon(con) THEN Pool[nleaf + 1] ELSE ""), args, z) IN
-                   /\ Ok(node)
-                   /\ stack' = Append(rest, node)
-       /\ ne' = IF cost = "e" THEN ne + 1 ELSE ne
-       /\ ns' = IF cost = "s" THEN ns + 1 ELSE ns
-       /\ nx' = IF cost = "x" THEN nx + 1 ELSE nx
-       /\ nleaf' = IF FreshCon(con) THEN nleaf + 1 ELSE nleaf
 
-\* pruning of dead ends: the items that are not statements yet must still be absorbable with the budgets that are left
-MaxOf(S) == IF S = {} THEN 0 ELSE CHOOSE m \in S : \A x \in S : x <= m
-ERed == MaxOf({Len(SigArgs(c)) - 1 : c \in {d \in Cons : Cost(d) = "e"}})
-XRed == MaxOf({Len(SigArgs(c)) - 1 : c \in {d \in Cons : Cost(d) = "x"}})
-SAbs == MaxOf({Len(SigArgs(c)) : c \in {d \in Cons : Cost(d) = "s"}})
-Feasible(st, e, s, x) ==
-    LET u == Cardinality({i \in DOMAIN st : Cat(st[i]) # "S"}) IN
-    u = 0 \/ (s < MaxS /\ u <= ERed * (MaxE - e) + XRed * (MaxX - x) + SAbs * (MaxS - s))
+(* ------------------------------- behaviours ------------------------------- *)
+(* A behaviour is a leftmost derivation: `word` is the prefix-order sequence of the constructors chosen so far, `holes` the *)
+(* categories of the operands still to be derived (leftmost first).  Every step fills the leftmost hole; budgets are      *)
+(* reserved so that every hole can always be closed, hence every behaviour ends in a complete program.                    *)
+Init == /\ word = <<>> /\ ne = 0 /\ ns = 0 /\ nx = 0 /\ np = 0 /\ nv = 0 /\ nleaf = 0
+        /\ holes \in {Rep("S", n) : n \in 1..MaxTop}
+
+\* which constructor may fill a hole of which category
+TargetKinds == {"id","dot","idx","pdot","grp"}
+DeclCon(con) == con.k \in {"fdecl","cdecl","dup"} \/ (con.k = "var" /\ con.op \in {"let","const"})
+Fills(con, h) ==
+    LET cat == Cat(con) IN
+    CASE h = "A" -> cat \in {"E", "A"}
+      [] h = "K" -> con.k = "blk"
+      [] h = "V" -> con.k = "var"
+      [] h = "T" -> con.k \in TargetKinds
+      [] h = "TP" -> con.k \in TargetKinds \cup {"arr","obj"}
+      [] h = "SB" -> cat = "S" /\ ~DeclCon(con)
+      [] h = "BT" -> cat = "B" /\ con.k # "bdef"          \* BindingIdentifier | BindingPattern, without Initializer
+      [] OTHER -> cat = h
+\* operand categories, refined: assignment targets, statement (not declaration) bodies
+ArgsFor(con, h) ==
+    LET sa == SigTab[con] k == con.k IN
+    CASE k = "grp" /\ h \in {"T","TP"} -> <<"T">>
+      [] k \in {"pre","post"} -> <<"T">>
+      [] k = "asg" -> <<(IF con.op = "=" THEN "TP" ELSE "T"), "E">>
+      [] k \in {"forin","forof","forawait"} -> <<(IF con.op = "e" THEN "TP" ELSE "BT"), "E", "SB">>
+      [] k = "dc" -> <<"BT">>
+      [] k \in {"dci","bdef"} -> <<"BT","E">>
+      [] k = "try" /\ con.op = "cp" -> <<"K","BT","K">>
+      [] k = "try" /\ con.op = "cpf" -> <<"K","BT","K","K">>
+      [] k \in {"ps","barr"} /\ con.op = "r" -> SubSeq(sa, 1, Len(sa) - 1) \o <<"BT">>
+      [] k \in {"if","while"} -> <<"E","SB">>
+      [] k = "ife" -> <<"E","SB","SB">>
+      [] k = "dow" -> <<"SB","E">>
+      [] k = "label" -> <<"SB">>
+      [] k = "for" -> SubSeq(sa, 1, Len(sa) - 1) \o <<"SB">>
+      [] OTHER -> sa
+CountIn(hs, cats) == Cardinality({i \in DOMAIN hs : hs[i] \in cats})
+Expand(con) ==
+    /\ holes # <<>>
+    /\ Fills(con, Head(holes))
+    /\ LET cost == CostTab[con]
+           hs == ArgsFor(con, Head(holes)) \o Tail(holes)
+           e2 == IF cost = "e" THEN ne + 1 ELSE ne
+           s2 == IF cost = "s" THEN ns + 1 ELSE ns
+           x2 == IF cost = "x" THEN nx + 1 ELSE nx
+           p2 == IF cost = "p" THEN np + 1 ELSE np
+           v2 == IF cost = "v" THEN nv + 1 ELSE nv
+       IN /\ e2 <= MaxE /\ p2 <= MaxP /\ v2 <= MaxL
+          /\ s2 + CountIn(hs, {"S","SB","V"}) <= MaxS
+          /\ x2 + CountIn(hs, {"DC","V"}) <= MaxX
+          /\ (FreshCon(con) => nleaf < Len(Pool))
+          /\ \E z \in (IF Head(holes) = "V" THEN {"semi"} ELSE IF HasTerm(con.k) THEN Terms ELSE {""}) :
+                word' = Append(word, [k |-> con.k, op |-> con.op, n |-> con.n, z |-> z])
+          /\ holes' = hs /\ ne' = e2 /\ ns' = s2 /\ nx' = x2 /\ np' = p2 /\ nv' = v2
+          /\ nleaf' = IF FreshCon(con) THEN nleaf + 1 ELSE nleaf
+
+\* the trees of a complete word (prefix notation); names are given in source order
+RECURSIVE BuildAt(_, _, _)
+RECURSIVE BuildKids(_, _, _, _)
+BuildAt(w, p, f) ==
+    LET con == [k |-> w[p].k, op |-> w[p].op, n |-> w[p].n]
+        f1 == IF FreshCon(con) THEN f + 1 ELSE f
+        kids == BuildKids(w, p + 1, f1, Len(SigTab[con]))
+    IN [t |-> N(con.k, con.op, (IF FreshCon(con) THEN Pool[f + 1] ELSE ""), kids.ts, w[p].z), pos |-> kids.pos, fresh |-> kids.fresh]
+BuildKids(w, p, f, n) ==
+    IF n = 0 THEN [ts |-> <<>>, pos |-> p, fresh |-> f]
+    ELSE LET a == BuildAt(w, p, f)
+             r == BuildKids(w, a.pos, a.fresh, n - 1)
+         IN [ts |-> <<a.t>> \o r.ts, pos |-> r.pos, fresh |-> r.fresh]
+RECURSIVE BuildTop(_, _, _)
+BuildTop(w, p, f) == IF p > Len(w) THEN <<>> ELSE LET a == BuildAt(w, p, f) IN <<a.t>> \o BuildTop(w, a.pos, a.fresh)
+RECURSIVE AllOk(_)
+AllOk(t) == Ok(t) /\ \A i \in DOMAIN t.c : AllOk(t.c[i])
 
 RECURSIVE OpsOf(_)
 OpsOf(t) == <<t.k \o ":" \o t.op>> \o Flat([i \in DOMAIN t.c |-> OpsOf(t.c[i])])
 
+\* parent>child adjacencies in prefix order (only used to name a disagreement precisely)
+RECURSIVE PairsOf(_)
+PairsOf(t) == Flat([i \in DOMAIN t.c |-> <<t.k \o ":" \o t.op \o ">" \o t.c[i].k \o ":" \o t.c[i].op>> \o PairsOf(t.c[i])])
 CaseFile == IOEnv.VERIF_CASES
 \* the function the whole program is put in when it needs [Yield] / [Await] / [Return] / new.target
 WrapKind(nd) == IF "gen" \in nd /\ "async" \in nd THEN "async*" ELSE IF "gen" \in nd THEN "*" ELSE IF "async" \in nd THEN "async"
                 ELSE IF nd \cap {"ret","nt"} # {} THEN "" ELSE "none"
 Emit(st, nn) ==
-    (st # <<>> /\ \A i \in DOMAIN st : Cat(st[i]) = "S") =>
+    ((\A i \in DOMAIN st : AllOk(st[i])) /\ (\A i \in DOMAIN st : i > 1 => st[i].k # "empty")) =>
         LET nd == UNION {Needs(st[i]) : i \in DOMAIN st}
             wk == WrapKind(nd)
             norm == [i \in DOMAIN st |-> Norm(st[i], -1, FALSE, "auto")]
@@ -724,9 +801,10 @@ Emit(st, nn) ==
                                         del |-> (IF bad THEN {} ELSE Dels(toks)),
                                         ins |-> (IF bad THEN {} ELSE Ins(lens, off)),
                                         ops |-> Flat([i \in DOMAIN st |-> OpsOf(st[i])]),
+                                        pairs |-> Flat([i \in DOMAIN st |-> PairsOf(st[i])]),
                                         nodes |-> nn])>>, CaseFile)
 
-Next == \E con \in Cons : Apply(con) /\ Feasible(stack', ne', ns', nx') /\ Emit(stack', ne' + ns')
+Next == \E con \in Cons : Expand(con) /\ (holes' = <<>> => Emit(BuildTop(word', 1, 0), ne' + ns' + np'))
 Spec == Init /\ [][Next]_vars
 \* vocabulary for the vacuity test of checks/C03.py
 Vocab == {c.k \o ":" \o c.op : c \in AllCons}
